@@ -98,7 +98,7 @@ void f_repeat_string (void) {
   size_t i;
 
   repeat = (sp--)->u.number;
-  if (repeat <= 0)
+  if ((int64_t)repeat <= 0)	/* repeat is unsigned: a negative count must not turn into a huge one */
     {
       free_string_svalue (sp);
       sp->type = T_STRING;
@@ -109,6 +109,8 @@ void f_repeat_string (void) {
     {
       str = sp->u.string;
       len = SVALUE_STRLEN (sp);
+      if (!len)
+        return;			/* "" repeated is still "": do not spin for repeat rounds */
       /* compare without multiplying: len * repeat wraps for huge repeat counts */
       if (len && repeat > (size_t)CONFIG_INT (__MAX_STRING_LENGTH__) / len)
         error ("repeat_string: String too large.\n");
